@@ -36,6 +36,8 @@ type sconf struct {
 	DumpEager  bool       `json:"dump_eager"`
 	BodyMaxBlk int        `json:"bodymax_blk"`
 	RealHash   bool       `json:"realhash"` // keep the real key hash (keys must route to Bucket)
+	Crash      bool       `json:"crash"`    // snapshot every fs boundary and recover it in a child process
+	MaxTorn    int        `json:"maxtorn"`
 }
 
 type sop struct {
@@ -76,6 +78,8 @@ type runner struct {
 	realOf map[string]string
 	ts     uint32
 	pendingRot map[int]bool // spawned rotation flushers not yet released (manual mode)
+	crash      *crashCtl
+	gen        []genSpec
 }
 
 // deterministic, incompressible bytes for value id v
@@ -104,6 +108,9 @@ func (r *runner) valBytes(v int, key string, nblk int) []byte {
 	}
 	b := genBytes(v, n)
 	// make the value id recoverable and distinct per (v, key length)
+	if _, ok := r.vals[string(b)]; !ok {
+		r.gen = append(r.gen, genSpec{v, key, nblk})
+	}
 	r.vals[string(b)] = v
 	return b
 }
@@ -255,6 +262,10 @@ func (r *runner) get(m string) ev {
 	if err != nil {
 		e["res"] = "err"
 		e["err"] = err.Error()
+		if _, mpos, merr := r.store.Get(ki, true); merr == nil { // where the index points (for diagnosis / finding signatures)
+			e["c"] = mpos.ChunkID
+			e["off"] = int(mpos.Offset) / 256
+		}
 		return e
 	}
 	if p == nil {
@@ -456,6 +467,35 @@ func (r *runner) step(i int, o *sop) (e ev, stop bool) {
 		home := GetBucketPath(r.sc.Conf.Bucket)
 		removed := []string{}
 		for _, pat := range o.Rm {
+			if strings.HasPrefix(pat, "@subset:") {
+				// a seeded subset of ALL index files that exist right now (each with probability 1/2)
+				seed, _ := strconv.Atoi(pat[len("@subset:"):])
+				ms, _ := filepath.Glob(filepath.Join(home, "*.idx.*"))
+				sort.Strings(ms)
+				x := uint64(seed)*0x9E3779B97F4A7C15 + 12345
+				for _, p := range ms {
+					x ^= x << 13
+					x ^= x >> 7
+					x ^= x << 17
+					if strings.HasSuffix(p, ".tmp") || (x>>20)&1 == 0 {
+						continue
+					}
+					os.Remove(p)
+					removed = append(removed, filepath.Base(p))
+				}
+				continue
+			}
+			if pat == "@lastsplits" { // the last hint split of every chunk + the tree dump
+				ms, _ := filepath.Glob(filepath.Join(home, "*.idx.s"))
+				sort.Strings(ms)
+				for i, p := range ms {
+					if i == len(ms)-1 || filepath.Base(ms[i+1])[:3] != filepath.Base(p)[:3] {
+						os.Remove(p)
+						removed = append(removed, filepath.Base(p))
+					}
+				}
+				pat = "*.idx.hash"
+			}
 			ms, _ := filepath.Glob(filepath.Join(home, pat))
 			for _, p := range ms {
 				os.Remove(p)
@@ -617,10 +657,35 @@ func (r *runner) run() {
 		vl.emit(ev{"a": "Abort", "l": 1, "err": err.Error()})
 		return
 	}
+	if r.sc.Conf.Crash {
+		root := r.dir + "-snaps"
+		os.RemoveAll(root)
+		os.MkdirAll(root, 0777)
+		defer os.RemoveAll(root)
+		mt := r.sc.Conf.MaxTorn
+		if mt == 0 {
+			mt = 6
+		}
+		r.crash = &crashCtl{root: root, home: r.dir, bhome: GetBucketPath(r.sc.Conf.Bucket), lastPre: map[string][]byte{}, maxTorn: mt}
+		vs.mu.Lock()
+		vs.crash = r.crash
+		vs.snap = r.crash.onFS
+		vs.mu.Unlock()
+	}
 	for i := range r.sc.Ops {
+		if r.crash != nil {
+			r.crash.op = i
+			r.crash.ingc = r.sc.Ops[i].Op == "gc"
+		}
 		e, stop := r.step(i, &r.sc.Ops[i])
 		if e != nil {
 			vl.emit(e)
+		}
+		if r.crash != nil {
+			// marker: the Recovered observations of the boundaries inside this operation are
+			// produced at the end of the scenario (one child process for all snapshots) and
+			// belong here in the trace; the orchestrator moves them (pure reordering by "op")
+			vl.emit(ev{"a": "RecoveredHere", "l": 1, "op": i})
 		}
 		if stop {
 			break
@@ -631,6 +696,11 @@ func (r *runner) run() {
 		vl.emit(ev{"a": "ReadAll", "l": 1, "reads": r.readAll(), "final": true})
 	}
 	r.waitParked()
+	if r.crash != nil {
+		for _, re := range r.recoverSnaps(r.crash, r.gen) {
+			vl.emit(re)
+		}
+	}
 	vl.emit(ev{"a": "End", "l": 1, "sid": r.sc.ID})
 }
 
